@@ -21,7 +21,7 @@ var purePkgs = []string{
 	"strconv", "path", "path/filepath", "fmt", "strings", "bytes", "math", "errors", "unicode", "unicode/utf8",
 	"encoding/hex", "encoding/binary", "github.com/pingcap/errors", "github.com/pkg/errors", "net/url", "regexp", "math/bits",
 	"github.com/coreos/go-semver/semver", "github.com/gogo/protobuf/proto", "github.com/golang/protobuf/proto", "reflect", "encoding/json",
-	"github.com/docker/go-units", "context", "google.golang.org/grpc/status", "google.golang.org/grpc/codes", "google.golang.org/grpc/metadata", "go.etcd.io/etcd/clientv3", "go.etcd.io/etcd/etcdserver/etcdserverpb", "go.etcd.io/etcd/mvcc/mvccpb",
+	"github.com/docker/go-units", "context", "github.com/phf/go-queue", "google.golang.org/grpc/status", "google.golang.org/grpc/codes", "google.golang.org/grpc/metadata", "go.etcd.io/etcd/clientv3", "go.etcd.io/etcd/etcdserver/etcdserverpb", "go.etcd.io/etcd/mvcc/mvccpb",
 }
 
 // results of these are arbitrary (not functions of the arguments) but the heap is untouched.
@@ -71,10 +71,50 @@ func (s *Session) call(fr *Frame, cc *ssa.CallCommon, st *State, instr *ssa.Call
 	if fr.top && fr.contract != nil && len(fr.contract.Ats) > 0 {
 		s.callSiteAsserts(fr, cc, st, instr, nil)
 		res := s.call2(fr, cc, args, st, instr)
+		s.recordCallResult(fr, cc, instr, res)
 		s.callSiteAsserts(fr, cc, st, instr, &res)
 		return res
 	}
-	return s.call2(fr, cc, args, st, instr)
+	res := s.call2(fr, cc, args, st, instr)
+	if fr.top {
+		s.recordCallResult(fr, cc, instr, res)
+	}
+	return res
+}
+
+// recordCallResult remembers the value returned by the k-th call (source order) of a callee name, so that
+// specifications can refer to it as callres("Name", k).
+func (s *Session) recordCallResult(fr *Frame, cc *ssa.CallCommon, instr *ssa.Call, res Val) {
+	if instr == nil {
+		return
+	}
+	s.ensureCallSites(fr)
+	if fr.callResults == nil {
+		fr.callResults = map[string]Val{}
+	}
+	fr.callResults[fmt.Sprintf("%s#%d", calleeName(cc), fr.callSites[instr])] = res
+}
+
+func (s *Session) ensureCallSites(fr *Frame) {
+	if fr.callSites != nil {
+		return
+	}
+	fr.callSites = map[ssa.Instruction]int{}
+	byName := map[string][]ssa.Instruction{}
+	for _, b := range fr.fn.Blocks {
+		for _, in := range b.Instrs {
+			if c, ok := in.(*ssa.Call); ok {
+				n := calleeName(&c.Call)
+				byName[n] = append(byName[n], in)
+			}
+		}
+	}
+	for _, list := range byName {
+		sort.SliceStable(list, func(i, j int) bool { return list[i].Pos() < list[j].Pos() })
+		for i, in := range list {
+			fr.callSites[in] = i + 1
+		}
+	}
 }
 
 func (s *Session) call2(fr *Frame, cc *ssa.CallCommon, args []Val, st *State, instr *ssa.Call) Val {
@@ -443,6 +483,8 @@ func (s *Session) applyContract(fr *Frame, c *Contract, fn *ssa.Function, sig *t
 		s.ghostSet(st, "evlast", Store(s.ghostGet(st, "evlast"), s.strLit(ev), now))
 		if len(vals) == 1 && len(vals[0].L) == 1 && vals[0].L[0].Sort == SBool {
 			s.ghostSet(st, "evres", Store(s.ghostGet(st, "evres"), s.strLit(ev), Ite(vals[0].L[0], I(1), I(0))))
+		} else if len(vals) == 1 && len(vals[0].L) == 1 && vals[0].L[0].Sort == SInt {
+			s.ghostSet(st, "evres", Store(s.ghostGet(st, "evres"), s.strLit(ev), vals[0].L[0]))
 		}
 	}
 	se2 := &SpecEnv{sess: s, pkg: pkgT, vars: env, st: st, old: old}
@@ -1137,24 +1179,7 @@ func (s *Session) callSiteAsserts(fr *Frame, cc *ssa.CallCommon, st *State, inst
 	if name == "" || instr == nil {
 		return
 	}
-	if fr.callSites == nil {
-		fr.callSites = map[ssa.Instruction]int{}
-		byName := map[string][]ssa.Instruction{}
-		for _, b := range fr.fn.Blocks {
-			for _, in := range b.Instrs {
-				if c, ok := in.(*ssa.Call); ok {
-					n := calleeName(&c.Call)
-					byName[n] = append(byName[n], in)
-				}
-			}
-		}
-		for _, list := range byName {
-			sort.SliceStable(list, func(i, j int) bool { return list[i].Pos() < list[j].Pos() })
-			for i, in := range list {
-				fr.callSites[in] = i + 1
-			}
-		}
-	}
+	s.ensureCallSites(fr)
 	k := fr.callSites[instr]
 	key := fmt.Sprintf("%s#%d", name, k)
 	phase := "assert"
